@@ -104,6 +104,8 @@ const (
 	actUnregisterWhileServing // b calls a.proc (pending), then a unregisters a.proc
 	actSubscribeUnsubscribe
 	actSubscribeHistory // a subscribes to a topic with configured event history
+	actRefusedUnregister // a holds one registration and sends UNREGISTER / UNSUBSCRIBE for ids it does not hold
+	actTestamentAck      // testament whose publication asks for an acknowledgement
 	actCount
 )
 
@@ -181,6 +183,21 @@ func vC05(nActs int, acts []int, ways int) {
 			if sd != nil {
 				a.send(&wamp.Unsubscribe{Request: 20, Subscription: sd.Subscription})
 			}
+		case actRefusedUnregister:
+			if !did[actRegister] {
+				a.send(&wamp.Register{Request: 12, Procedure: "a.proc"})
+				did[actRegister] = true
+				a.drain()
+			}
+			// ids nobody holds (ids in use are small sequence numbers; naming somebody
+			// else's id is the business of the C01 / C18 harnesses)
+			bogusReg, bogusSub := vUint64("bogus.registration"), vUint64("bogus.subscription")
+			vAssume(vAnd(bogusReg >= 1000, bogusSub >= 1000))
+			a.send(&wamp.Unregister{Request: 22, Registration: wamp.ID(bogusReg)})
+			a.send(&wamp.Unsubscribe{Request: 23, Subscription: wamp.ID(bogusSub)})
+		case actTestamentAck:
+			a.send(&wamp.Call{Request: 24, Procedure: wamp.MetaProcSessionAddTestament, Arguments: wamp.List{"will.topic", wamp.List{"bye-ack"}, wamp.Dict{}},
+				ArgumentsKw: wamp.Dict{"publish_options": wamp.Dict{"acknowledge": true}}})
 		case actSubscribeHistory:
 			a.send(&wamp.Subscribe{Request: 21, Topic: "hist.topic"})
 			_, n := vFindMsg[*wamp.Subscribed](a.drain())
@@ -203,7 +220,8 @@ func vC05(nActs int, acts []int, ways int) {
 	vAssert("only-pending-calls-are-tracked", len(rl.dealer.calls) == pendingCalls && len(rl.dealer.invocations) == pendingCalls && len(rl.dealer.invocationByCall) == pendingCalls)
 
 	// --- the session ends ---
-	switch vChoice("way", ways) {
+	way := vChoice("way", ways)
+	switch way {
 	case 0:
 		a.send(&wamp.Goodbye{Reason: wamp.CloseRealm, Details: wamp.Dict{}})
 	case 1:
@@ -212,6 +230,8 @@ func vC05(nActs int, acts []int, ways int) {
 		b.send(&wamp.Call{Request: 20, Procedure: wamp.MetaProcSessionKill, Arguments: wamp.List{a.id}})
 	case 3:
 		a.send(&wamp.Welcome{ID: 1, Details: wamp.Dict{}}) // protocol violation
+	case 4: // everybody but the caller is killed through the meta API
+		b.send(&wamp.Call{Request: 20, Procedure: wamp.MetaProcSessionKillAll})
 	}
 	a.drain()
 	bm := b.drain()
@@ -222,7 +242,7 @@ func vC05(nActs int, acts []int, ways int) {
 		vAssert("served-call-answered-with-error-once", nerr == 1)
 		vCover("served-call-cancelled")
 	}
-	if did[actTestament] {
+	if did[actTestament] && way != 4 {
 		nWill := 0
 		for _, m := range bm {
 			if e, ok := m.(*wamp.Event); ok && len(e.Arguments) == 1 && e.Arguments[0] == any("bye") {
@@ -260,8 +280,8 @@ func vC05(nActs int, acts []int, ways int) {
 	vCover("cleanup-checked")
 }
 
-var vC05Acts = []int{actSubscribe, actRegister, actCallPending, actServePending, actRefusedCall, actRefusedCall2, actTestament, actUnregisterWhileServing, actSubscribeUnsubscribe, actSubscribeHistory}
+var vC05Acts = []int{actSubscribe, actRegister, actCallPending, actServePending, actRefusedCall, actRefusedCall2, actTestament, actUnregisterWhileServing, actSubscribeUnsubscribe, actSubscribeHistory, actRefusedUnregister, actTestamentAck}
 
-func Harness_C05_Leave_1() { vC05(1, vC05Acts, 4) }
-func Harness_C05_Leave_2() { vC05(2, vC05Acts, 4) }
-func Harness_C05_Leave_3() { vC05(3, vC05Acts, 4) }
+func Harness_C05_Leave_1() { vC05(1, vC05Acts, 5) }
+func Harness_C05_Leave_2() { vC05(2, vC05Acts, 5) }
+func Harness_C05_Leave_3() { vC05(3, vC05Acts, 5) }
